@@ -2,18 +2,22 @@ use crate::engine::Ctx;
 
 pub mod c03;
 pub mod c04;
+pub mod c06;
 pub mod c08;
 pub mod c09;
 pub mod c10;
 pub mod c11;
+pub mod c12;
 
 pub const TABLE: &[(&str, fn(&mut Ctx))] = &[
 	("C03", c03::run),
 	("C04", c04::run),
+	("C06", c06::run),
 	("C08", c08::run),
 	("C09", c09::run),
 	("C10", c10::run),
 	("C11", c11::run),
+	("C12", c12::run),
 ];
 
 pub fn run(ctx: &mut Ctx) -> bool {
